@@ -609,12 +609,56 @@ def c14_flag_errors(rep, tier, seed, rows):
                            "args": args, "cli": res})
 
 
+def c11_severities(rep, tier, seed, rows):
+    """every assignment of severities to three violating blocks (two files, three rules), in-process and through the binary:
+    exit 1 iff some diagnostic has severity error; every diagnostic printed with its numeric severity"""
+    import itertools
+    import cli as C
+    sevs = [None, "error", "warning", "info", "hint", "WARNING", "Error"] if tier == "quick" else [None, "error", "warning", "info", "hint", "WARNING", "Error", "Hint", "INFO"]
+    num = {None: 1, "error": 1, "warning": 2, "info": 3, "hint": 4}
+    rep.rules.append(f"exhaustive: every assignment of {len(sevs)} severity spellings (absent, error, warning, info, hint, other letter case) to three violating blocks in two files, in both block orders; exit status 1 iff an error-severity diagnostic exists; in-process and through the binary")
+    raws = []
+    def attr(sv):
+        return "" if sv is None else f' severity="{sv}"'
+    for a, b, c in itertools.product(sevs, repeat=3):
+        for order in (0, 1):
+            blk1 = f'# <block keep-sorted{attr(a)}>\nb\na\n# </block>\n'
+            blk2 = f'# <block line-count="<1"{attr(b)}>\nx\n# </block>\n'
+            f1 = blk1 + blk2 if order == 0 else blk2 + blk1
+            f2 = f'// <block keep-unique{attr(c)}>\nk\nk\n// </block>\n'
+            raws.append({"files": [{"path": "a.py", "text": f1}, {"path": "src/b.rs", "text": f2}], "walk": ["a.py", "src/b.rs"], "allow": ["a.py", "src/b.rs"],
+                         "ignore": [], "scan": True, "meta": {"gen": "severities", "sev": [a, b, c], "order": order}})
+    d = os.path.join(K.WORK, rep.prop, "severities")
+    __import__("shutil").rmtree(d, ignore_errors=True); os.makedirs(d)
+    with open(os.path.join(d, "raw.jsonl"), "w") as f:
+        for r in raws:
+            f.write(json.dumps(r) + "\n")
+    K.sh([K.BWH, "replay", "--out", d, os.path.join(d, "raw.jsonl")])
+    K.run_model(os.path.join(d, "cases.jsonl"), os.path.join(d, "model.jsonl"))
+    srows = [(json.loads(x), json.loads(y), json.loads(z)) for x, y, z in zip(open(os.path.join(d, "cases.jsonl")), open(os.path.join(d, "impl.jsonl")), open(os.path.join(d, "model.jsonl")))]
+    def oracle(case, impl):
+        want = sorted(num[(s.lower() if s else None)] for s in case["meta"]["sev"])
+        if "panic" in impl or "diags" not in impl.get("run", {}):
+            return [f"no diagnostics: {K.outcome_key(impl)}"]
+        got = sorted(d["severity"] for d in impl["run"]["diags"])
+        probs = []
+        if got != want:
+            probs.append(f"severities {got}, expected {want}")
+        if impl.get("exit") != (1 if 1 in want else 0):
+            probs.append(f"exit {impl.get('exit')} with severities {want}")
+        return probs
+    K.correspondence(rep, srows, "severities", lambda c, i, m: True, oracle=oracle)
+    cli_correspondence(rep, srows, "severities", n_for(tier, 200, 1500), subs=("validate",))
+
+
 CHECKS["C11"] = {
     "module": "Bw.Props.C11", "needs_binary": True, "trusted_base": TB_COMMON + ["main.rs control flow is exercised through the real binary (exit status, stderr/stdout JSON), not modelled line by line"],
     "run": multi_check(False, 4000, 60000, 250, 2500,
         "1-4 files of mixed languages, 0-4 nested/sibling blocks each with 0-3 rules (violating or not) and every severity spelling; in-process run + the real binary (validate and list) on a prefix; non-trivial = at least one diagnostic or error",
-        ("validate", "list")),
+        ("validate", "list"), extra=c11_severities),
 }
+
+
 def c14_subsets(rep, tier, seed, rows):
     """the property's own quantifier: every subset of the seven validators, given to --disable and to --enable, over the
     rule-richest generated file sets; plus the run-level law proved in Lean, checked on the implementation alone:
